@@ -23,7 +23,7 @@ from props import graphs as G
 LEVEL = "model_checking"
 RULE = ("per scenario (operation x pre-state): the fault-free run counts the "
         "user-callback invocations n; every (k <= n, exception class in "
-        "{TraitError, ValueError, AttributeError, RuntimeError}) is injected "
+        "{TraitError, ValueError, AttributeError, RuntimeError, RuntimeError with a non-string first argument}) is injected "
         "on fresh objects; non-trivial = every injected execution; distinct ="
         " distinct (scenario, pre-state, k, exception class)")
 EXPLANATION = ("exhaustive single-fault injection at every user-callback "
@@ -40,8 +40,14 @@ MIN_OUTCOMES = {t: ["deciding-no-effect", "handler-contained",
                 for t in ("quick", "thorough")}
 TIMEOUT = {"quick": 1200, "thorough": 7200}
 
+def _runtime_error_with_code(msg):
+    # an exception whose first argument is not a string
+    return RuntimeError(3, msg)
+
+
 EXC = {"TraitError": TraitError, "ValueError": ValueError,
-       "AttributeError": AttributeError, "RuntimeError": RuntimeError}
+       "AttributeError": AttributeError, "RuntimeError": RuntimeError,
+       "RuntimeError(3, msg)": _runtime_error_with_code}
 
 
 class Injector:
